@@ -1,5 +1,17 @@
 """C03 — factoring is total: it answers or fails cleanly, never crashes."""
+# SIZE AUDIT (quick tier), measured on cases('quick', Random(1)): bit length of n handed to factor()
+#   selector(s)                     quick max   thorough max  code supports                        boundary classes reached in quick (all deterministic lists)
+#   rho / squfof / qs64             64          64            n <= 64 bits after trial division    every bit length 41..64 (semiprimes), 2^64 - 40 .. 2^64 + 40
+#   ecm128                          128         128           n <= 128 bits                        65, 70, ..., 115, every length 120..128, (2^64 - d1)(2^64 - d2), 2^128 +- 40
+#   auto / ecm / pm1 / siqs / mpqs  500 (1024   same          n <= 500 bits (refused above;        2^64, 2^128, 2^192 - 1, 2^256 +- 40 (inputs that finish quickly), 470..500 (near-limit),
+#     / qs                          refused)                  ZmodN 1..8 words, Uint 1024 bits)    501, 502, 505, 510..513, 520, 600, 1000, 1024 bits (refused);
+#                                                                                                  BEFORE: nothing between 258 and 469 bits, i.e. ZmodN of 6 and 7 words (321..448 bits) and
+#                                                                                                  the boundaries 320 / 384 / 448 never reached by factor() -> ADDED (mid-words)
+#   cli (shipped program)           1329        same          500 bits                             64, 65, 128, 129, 499/500, 501, 512, 513, 1024, 1025 bits
+# Added: boundary_cases (both tiers, first): composites (40..46-bit prime times a prime) of exactly 191..193, 255..257, 319..321, 383..385,
+# 447..449 bits through ecm (every size) and auto (64k+1 sizes), primes and prime squares of those sizes through auto; both profiles.
 import re
+import random
 from vlib.pipeline import Case
 from vlib import gen
 from props import factor_common as fc
@@ -11,7 +23,8 @@ AUDIT = "Ymq.Audit.C03"
 THEOREMS = ['Ymq.C03.factor_total', 'Ymq.C03.factor_total_of_input', 'Ymq.C03.factorImpl_total']
 PROFILES = ["release", "chk"]
 TIMEOUT = 60.0
-RULE = ("every selector (inside its size precondition) x {0..300, products of 2-4 primes just above 199, 15-40 bit composites, "
+RULE = ("first, in both tiers, composites / primes / prime squares of exactly 191..193, 255..257, 319..321, 383..385, 447..449 bits (ZmodN of 3..8 words) through ecm and auto; then "
+        "every selector (inside its size precondition) x {0..300, products of 2-4 primes just above 199, 15-40 bit composites, "
         "semiprimes of every bit length 41..64, 2^64 +- small, 2^128 +- small, all-ones words, 480-500-bit primes / prime squares / "
         "smooth*prime, 501+ bit (must be refused)}; both build profiles; panic / abort / no answer within the watchdog = crash; "
         "non-trivial = n > 3; distinct by request line")
@@ -87,7 +100,39 @@ def cli_oracle(case, ans):
     return None
 
 
+def _fork(rng, label):
+    """own stream for the boundary family: depends on the run's seed, leaves the stream of the older families untouched"""
+    return random.Random(f"{label}:{rng.getstate()[1][:4]}")
+
+
+MID_BITS = [64 * k + d for k in (3, 4, 5, 6, 7) for d in (-1, 0, 1)]
+
+
+def exact_product(rng, bits, pbits):
+    """p * q of exactly `bits` bits, p a prime of pbits bits"""
+    while True:
+        p = gen.rand_prime(rng, pbits)
+        for qb in (bits - pbits, bits - pbits + 1):
+            q = gen.rand_prime(rng, qb)
+            if (p * q).bit_length() == bits:
+                return p * q
+
+
+def boundary_cases(rng, tier):
+    """the word counts of ZmodN between the word-boundary family (<= 257 bits) and the near-limit family (>= 470 bits)"""
+    for bits in MID_BITS:
+        n = exact_product(rng, bits, rng.randint(40, 46))
+        yield Case(f"factor {n} ecm", k=False, tag="mid-words", timeout=300)
+        if bits % 64 == 1:
+            yield Case(f"factor {n} auto", k=False, tag="mid-words", timeout=400)
+            q = gen.rand_prime(rng, bits // 2 + 1)
+            yield Case(f"factor {q * q} auto", k=False, tag="mid-words", timeout=120)
+        p = gen.rand_prime(rng, bits)
+        yield Case(f"factor {p} auto", k=False, tag="mid-words", timeout=120)
+
+
 def cases(tier, rng, extended=False):
+    yield from boundary_cases(_fork(rng, "C03-boundary"), tier)
     quick = tier == "quick"
     mult = 1 if quick else 6
     if extended:
